@@ -227,6 +227,7 @@ type tcpWorld struct {
 	lastFault                     time.Time
 	faultsFired                   map[string]int
 	hostTasks                     []*simhook.Task
+	hcTasks                       []*simhook.Task
 	stopRequested, drainRequested bool
 	connectEvents                 int
 	refused                       []string // clients whose connect was refused (listener closed)
@@ -480,7 +481,16 @@ func (w *tcpWorld) fireFaults() {
 				}
 			}
 		}
-		if due && (strings.HasPrefix(f.Kind, "host-") || f.Kind == "config-update") {
+		if due && (f.Kind == "stop" || f.Kind == "drain") {
+			// the controller, which issues configuration updates and stops services, is one event loop: a service is not
+			// stopped in the middle of an update of its health-check section (the monitor would be replaced under Stop's feet)
+			for _, t := range w.hcTasks {
+				if t.State != simhook.StDead {
+					due = false
+				}
+			}
+		}
+		if due && (strings.HasPrefix(f.Kind, "host-") || f.Kind == "config-update" || f.Kind == "hc-update") {
 			// the controller applies membership changes one after the other: wait for the previous one
 			for _, t := range w.hostTasks {
 				if t.State != simhook.StDead {
@@ -576,6 +586,17 @@ func (w *tcpWorld) inject(f *TCPFault) bool {
 		cfg := w.env.SvcConfigVariant(w.cfgUpdates)
 		tk := w.rt.Go("harness:config-update", func() { p.OnSvcConfigUpdate(cfg) })
 		w.hostTasks = append(w.hostTasks, tk)
+		return true
+	case "hc-update":
+		// an update of the service configuration whose health-check section differs from the one in force
+		if p == nil || w.stopRequested {
+			return false
+		}
+		w.cfgUpdates++
+		cfg := w.env.SvcConfigHC(w.cfgUpdates)
+		tk := w.rt.Go("harness:hc-update", func() { p.OnSvcConfigUpdate(cfg) })
+		w.hostTasks = append(w.hostTasks, tk)
+		w.hcTasks = append(w.hcTasks, tk)
 		return true
 	case "backend-down":
 		w.env.SetAccepting(f.Node, false)
